@@ -502,9 +502,14 @@ for _pid, _thms, _text in [
 
 # the concurrent HTTP server model (HttpLts): every interleaving of Run, Reload(), Stop(), cancellation and server events
 PROPS["C12"]["lean_modules"].append("GoSup.Props.C12L")
-PROPS["C13"]["theorems"] += ["GoSup.Props.C12L.c13_stop_never_stuck"]
+PROPS["C13"]["theorems"] += ["GoSup.Props.C12L.c13_stop_never_stuck", "GoSup.Props.C12L.c14_stop_returns"]
 PROPS["C14"]["lean_modules"].append("GoSup.Props.C12L")
-PROPS["C14"]["theorems"] += ["GoSup.Props.C12L.c13_stop_never_stuck"]
+PROPS["C14"]["theorems"] += ["GoSup.Props.C12L.c13_stop_never_stuck", "GoSup.Props.C12L.c14_lib_steps_bounded",
+                             "GoSup.Props.C12L.c14_stop_returns"]
+PROPS["C14"]["level_text"] += (" Concurrent model HttpLts, every interleaving: from every reachable state with a waiting Stop() the "
+                               "library's own steps reach the return of Run() within `measure s` steps (what is left of Run, of the "
+                               "reload under way and of the reloads waiting), and no execution of library steps is longer "
+                               "(c14_stop_returns, c14_lib_steps_bounded: no deadlock, no livelock).")
 PROPS["C12"]["theorems"] += ["GoSup.Props.C12L.c12_one_open_instance", "GoSup.Props.C12L.c12_released",
                              "GoSup.Props.C12L.c12_running_serving", "GoSup.Props.C12L.c12_f1_reachable"]
 PROPS["C12"]["level_text"] = (
